@@ -26,6 +26,12 @@ INPUTS = {
     "valid_multi": ([("app.pn", USES_LIB % 21), ("lib.pn", LIB)], True, 42),
     "valid_multi_reordered": ([("lib.pn", LIB), ("app.pn", USES_LIB % 4)], True, 8),
     "valid_subdir": ([("src/deep/main.pn", VALID_MAIN % 3)], True, 3),
+    # both modules use the same builtin (one intrinsic declared per module)
+    "valid_multi_builtins": ([("app.pn", "import \"talk.pn\";\n\nfn main() -> i32\n{\n\tprint!(\"app \", 1i32, \"\\n\");\n\treturn: say(5)\n}\n"),
+                              ("talk.pn", "pub fn say(x: i32) -> i32\n{\n\tprint!(\"talk \", x, \"\\n\");\n\treturn: x + 1\n}\n")], True, 6),
+    "valid_multi_builtins_reordered": ([("talk.pn", "pub fn say(x: i32) -> i32\n{\n\tprint!(\"talk \", x, \"\\n\");\n\treturn: x + 1\n}\n"),
+                                        ("app.pn", "import \"talk.pn\";\n\nfn main() -> i32\n{\n\tprint!(\"app \", 1i32, \"\\n\");\n\treturn: say(5)\n}\n")],
+                                       True, 6),
     "lexical_error": ([("main.pn", "fn main() -> i32\n{\n\tvar x: i32 = 1 @ 2;\n\treturn: x\n}\n")], False, [110]),
     "type_error": ([("main.pn", "fn main() -> i32\n{\n\tvar x: i32 = true;\n\treturn: x\n}\n")], False, [504]),
     "error_in_second_module": ([("app.pn", USES_LIB % 1), ("lib.pn", "pub fn twice(x: i32) -> i32\n{\n\treturn: x + y\n}\n")], False, [402]),
